@@ -83,6 +83,8 @@ def snap_solution(sol):
 
 def _params(spec):
     kw = dict(eps=spec["eps"], r=spec["r"], itersLimit=spec["limit"])
+    if spec.get("refine"):
+        kw["refineSolution"] = True
     if spec.get("density") is not None:
         kw["evolventDensity"] = spec["density"]
     return SolverParameters(**kw)
@@ -401,11 +403,11 @@ def run(ctx):
     # what the solvers of one execution may legitimately have in common: one SolverParameters object, the default
     # parameters argument, one Problem object; dimensions 5/6 next to 2 so that a per-dimension adjustment of a
     # shared object would show
-    def shared(share, dims, fs, ops, density=None, limit=8, eps=0.05):
+    def shared(share, dims, fs, ops, density=None, limit=8, eps=0.05, refine=False):
         sp = []
         for k, (n_, f) in enumerate(zip(dims, fs)):
             sp.append(dict(f=f, N=n_, box="B1" if share != "problem" else "B0", r=2.0, eps=eps, limit=limit, share=share,
-                           density=density))
+                           density=density, refine=refine))
         if share == "problem":
             sp = [dict(sp[0]) for _ in dims]
         return [dict(specs=sp, ops=ops, first=None)]
@@ -414,6 +416,10 @@ def run(ctx):
             tasks += shared("params", dims, ("quad0", "mono"), ["c", "i", "i", "S", "r"], density=dens)
     for dims in ((2, 1), (6, 2), (2, 6)):
         tasks += shared("default", dims, ("mono", "quad0"), ["c", "i", "i", "i", "r"])
+    # one SolverParameters object with refineSolution=True handed to both solvers (and own objects with the same values)
+    for dims in ((1, 1), (2, 1)):
+        tasks += shared("params", dims, ("neg", "quad0"), ["c", "i", "S", "r"], refine=True, limit=40)
+        tasks += shared("own", dims, ("neg", "quad0"), ["c", "i", "S", "r"], refine=True, limit=40)
     for N in (1, 2):
         tasks += shared("problem", (N, N), ("neg", "neg"), ["c", "i", "i", "S", "r"])
     # local refinement between the global steps (writes into the best trial's value holder): own and shared Problem
